@@ -207,7 +207,11 @@ pub fn hex(b: &[u8]) -> String {
 /// Strip the `/repo/` prefix and line numbers so that a panic site is stable under
 /// unrelated edits: `crates/x/src/y.rs`.
 pub fn norm_loc(loc: &str) -> String {
-    let l = loc.strip_prefix("/repo/").unwrap_or(loc);
+    // the repository may be checked out elsewhere (scratch worktrees): keep from `crates/` on
+    let l = match loc.find("/crates/") {
+        Some(i) if !loc.contains("/registry/") => &loc[i + 1..],
+        _ => loc.strip_prefix("/repo/").unwrap_or(loc),
+    };
     match l.rfind(':') {
         Some(i) => l[..i].to_string(),
         None => l.to_string(),
